@@ -541,6 +541,7 @@ def run(tier):
     _l.limb_split_consistent(chk, ['src/ec/'])
     _l.word_codec_maps(chk, ['src/ec/'], floor=3)
     _l.word_split_conserves_bits(chk, ['src/ec/'], floor=6)
+    _l.or_scan_covers_array(chk, ['src/ec/'], floor=1)
     from .. import siblings as _sib
     _sib.check(chk, ['src/ec/'], floor=8)
     from .. import siblings as _sib
